@@ -40,6 +40,13 @@ func (o *objectIncludeStrategy) evaluate(m *MethodEvaluator) error {
 		base.SeparateNameSpaces(nextT.ToString())
 
 	parentFrame = base.CalculateFrame(parentFrame, parentNamespace)
+
+	// an unqualified module is first looked up in the enclosing namespace
+	if parentFrame == "" && m.ctx.GetFrame() != "" &&
+		base.IsUserClassDefined(m.ctx.GetFrame(), parentClass) {
+		parentFrame = m.ctx.GetFrame()
+	}
+
 	var parentNode base.ClassNode
 
 	if m.method == "extend" {
